@@ -787,8 +787,9 @@ def _clip(x):
 class Wire(object):
     """genshi template events -> wire values; expressions are numbered in order of appearance"""
 
-    def __init__(self):
+    def __init__(self, py=False):
         self.ids = {}
+        self.py = py        # the code travels as its syntax tree (verb `extractp`), not as the list extract_from_code finds
 
     def eid(self, obj):
         k = id(obj)
@@ -804,6 +805,8 @@ class Wire(object):
 
     def code(self, expr):
         from genshi.filters.i18n import extract_from_code, GETTEXT_FUNCTIONS
+        if self.py:
+            return py_wire(expr.ast)
         return [[f, self.val(v)] for f, v in extract_from_code(expr, GETTEXT_FUNCTIONS)]
 
     def dir(self, d):
@@ -1107,6 +1110,26 @@ def corr_lines(case, rng):
     except Exception as e:  # noqa
         real = [Atom('err'), Atom(errname(e))]
     out.append(('extract', line, real))
+    # --- Translator.extract(stream, gettext_functions=gf) with the code as syntax trees: the model
+    # itself runs `extractFromCode gf` where the code meets an EXPR / EXEC event or an expression in an
+    # attribute value (`extractP`); nothing the real extract_from_code computed goes to the model
+    tmpl, tr = fresh_template(case)
+    gf = tuple(i18n.GETTEXT_FUNCTIONS) if rng.random() < 0.5 else rng.choice(TEMPLATE_GF)
+    try:
+        wired = Wire(py=True).stream(tmpl.stream)
+    except ValueError:
+        wired = None
+    if wired is not None and not _has_surrogate(wired):
+        line = proto.line(Atom('C19'), Atom('extractp'), wire_cfg(tr), list(gf), wired)
+        try:
+            msgs = []
+            for lineno, func, msg, comments in tr.extract(tmpl.stream, gettext_functions=gf):
+                msgs.append([proto.N if func is None else func, Wire.val(msg), list(comments)])
+            real = [Atom('ok'), msgs]
+        except Exception as e:  # noqa
+            real = [Atom('err'), Atom(errname(e))]
+        out.append(('extractp', line, real))
+        out.append(('branches', None, ['extractp:gf=' + ('default' if gf == tuple(i18n.GETTEXT_FUNCTIONS) else '+'.join(gf) or 'none')]))
     # --- MsgDirective.__call__ on every message of the template
     tmpl, tr = fresh_template(case)
     w = Wire()
@@ -1348,6 +1371,8 @@ def _has_surrogate(x):
     return False
 
 
+# `gettext_functions` arguments for the templates (their code calls `_`, `ngettext` and `len`)
+TEMPLATE_GF = [('_',), ('ngettext',), (), ('len', '_'), ('ngettext', 'len'), ('gettext', 'N_'), ('_', 'ngettext', 'len')]
 ALT_GF = [('_', 'tr', 'len'), ('gettext',), (), ('N_', 'pgettext', '_', 'ngettext'), ('str', 'dict', 'sorted')]
 
 
